@@ -15,7 +15,9 @@ import sys
 import time
 
 VERIF = os.path.dirname(os.path.dirname(os.path.abspath(__file__)))
-REPO = "/repo"
+# the repository under verification; VERIF_REPO is a development aid (seed drills run against scratch worktrees in
+# parallel from copies of /verif) - the registered commands never set it
+REPO = os.environ.get("VERIF_REPO", "/repo")
 COQ = os.path.join(VERIF, "coq")
 SRC = os.path.join(REPO, "src")
 PY = "/venv/bin/python"
